@@ -54,7 +54,7 @@ pub fn run(tier: Tier) -> i32 {
     let mut rep = Report::new("C13", tier);
     let mut us = u_lex(tier);
     us.retain(|u| {
-        (u.name.contains("matrix3x3s1") || u.name.contains("matrix3x4s2") || u.name.contains("RawK3")) && u.mapping.is_none() && !u.name.contains("extreme") && !u.name.contains("multibyte")
+        (u.name.contains("matrix3x3s1") || u.name.contains("matrix3x4s2") || u.name.contains("RawK3") || u.name.contains("DualK9x1/5x3")) && !u.name.contains("extreme") && !u.name.contains("multibyte")
     });
     let depth = tier.pick(3, 4);
     let seqs = all_seqs(SENTS.len(), depth);
@@ -156,6 +156,9 @@ pub fn run(tier: Tier) -> i32 {
             // tokenizes identically
             if seq.len() <= 2 || st.states % 5 == 0 {
                 let (d2, _) = u.build().unwrap();
+                if u.mapping.is_some() {
+                    st.count("statistics_on_an_already_mapped_dictionary");
+                }
                 let lm: Vec<u16> = lp.iter().map(|x| x.0 as u16).collect();
                 let rm: Vec<u16> = rp.iter().map(|x| x.0 as u16).collect();
                 match guard(move || d2.map_connection_ids_from_iter(lm, rm)) {
@@ -205,6 +208,7 @@ pub fn run(tier: Tier) -> i32 {
             "sequences_with_no_lines",
             "sequences_with_trailing_space_under_ignore_space",
             "mappings_fed_to_map_connection_ids",
+            "statistics_on_an_already_mapped_dictionary",
         ],
     )
 }
